@@ -1833,6 +1833,8 @@ mod nodeop {
         pub close: Option<tokio::sync::oneshot::Sender<()>>,
         pub serve: Arc<Mutex<Serve>>,
         pub served: Arc<Mutex<Vec<u64>>>,
+        /// set when `Mux::run` of this connection returned (the node dropped us)
+        pub dead: Arc<AtomicBool>,
     }
 
     pub async fn with_timeout<T>(ms: u64, f: impl std::future::Future<Output = T>) -> Option<T> {
@@ -1855,15 +1857,15 @@ mod nodeop {
 
     /// one RPC call made by the peer: `Some(response body)` if the node answered
     pub async fn call(ctx: &ctx::Ctx, q: &vmux::Queue, framed_req: &[u8]) -> Option<Vec<u8>> {
-        let mut st = with_timeout(2000, q.open(ctx)).await?.ok()?;
-        with_timeout(2000, async {
+        let mut st = with_timeout(300, q.open(ctx)).await?.ok()?;
+        with_timeout(300, async {
             st.write.write_all(ctx, framed_req).await.ok()?;
             st.write.flush(ctx).await.ok()?;
             Some(())
         }).await??;
         let vmux::Stream { mut read, write } = st;
         drop(write);
-        with_timeout(2000, read_frame(ctx, &mut read)).await?
+        with_timeout(300, read_frame(ctx, &mut read)).await?
     }
 
     pub struct Blocks(pub Vec<validator::Block>);
@@ -1881,7 +1883,7 @@ mod nodeop {
             served.lock().unwrap().push(n);
             let m = mode.lock().unwrap().clone();
             let resp: Option<Vec<u8>> = match m {
-                Serve::Hang => { std::future::pending::<()>().await; None }
+                Serve::Hang => { ctx.canceled().await; return }
                 Serve::Right => Some(framed(&wire::rpc_get_block_resp(blocks.get(n)).encode())),
                 Serve::None_ => Some(framed(&wire::rpc_get_block_resp(None).encode())),
                 Serve::Wrong => Some(framed(&wire::rpc_get_block_resp(blocks.0.iter().find(|b| b.number().0 != n).cloned()).encode())),
@@ -1934,16 +1936,18 @@ mod nodeop {
         let served = Arc::new(Mutex::new(vec![]));
         let gb = connect["get_block"].clone();
         let (m2, s2) = (serve.clone(), served.clone());
+        let dead = Arc::new(AtomicBool::new(false));
+        let d2 = dead.clone();
         s.spawn_bg(async move {
             let _: Result<(), ctx::Canceled> = scope::run!(ctx, |ctx, s| async move {
-                s.spawn_bg(async move { let _ = mux.run(ctx, stream).await; Ok(()) });
+                s.spawn_bg(async move { let _ = mux.run(ctx, stream).await; d2.store(true, Ordering::SeqCst); Ok(()) });
                 s.spawn_bg(async move { serve_loop(ctx, gb, m2, s2, blocks).await; Ok(()) });
                 let _ = ctx.wait(close_rx).await;
                 Ok(())
             }).await;
             Ok(())
         });
-        Ok(Peer { accept, connect, close: Some(close), serve, served })
+        Ok(Peer { accept, connect, close: Some(close), serve, served, dead })
     }
 
     pub fn state_of(v: &Value, qc: &v2::CommitQC) -> BlockStoreState {
@@ -2036,7 +2040,9 @@ fn gen_store_and_node(rng: &mut StdRng, n: usize, ops: &mut Vec<Value>) {
         for kind in ["pre", "fin"] {
             let mut steps = vec![];
             for &l in &nums {
-                for &f in &[0u64, fp, fb, l, l.wrapping_add(1), u64::MAX] {
+                let mut fs = vec![0u64, fp, fb, l, l.wrapping_add(1), u64::MAX];
+                fs.sort(); fs.dedup();
+                for &f in &fs {
                     let mut st = json!({"first": f});
                     st[kind] = json!(l);
                     steps.push(json!({"k": "bss", "state": st, "serve": serves[(l as usize ^ f as usize) % serves.len()]}));
@@ -2107,7 +2113,8 @@ impl C10 {
         let fb = op["first_block"].as_u64().unwrap_or(0);
         let fp = op["first_pre"].as_u64().unwrap_or(0);
         let steps = op["steps"].as_array().cloned().unwrap_or_default();
-        let res: Result<Value, String> = self.rt.block_on(async {
+        let rt = &self.rt;
+        let res: Result<Value, String> = catch(|| rt.block_on(async {
             let root = ctx::test_root(&ctx::RealClock);
             let mut rng = <StdRng as rand::SeedableRng>::seed_from_u64(seed);
             let mut spec = validator::testonly::SetupSpec::new(&mut rng, 2);
@@ -2146,6 +2153,11 @@ impl C10 {
                 let mut peer: Option<Peer> = None;
                 track_start();
                 for st in steps {
+                    if peer.as_ref().is_some_and(|p| p.dead.load(Ordering::SeqCst)) {
+                        // the node dropped the connection (e.g. after a bad get_block answer): a peer simply reconnects
+                        if let Some(mut p) = peer.take() { if let Some(c) = p.close.take() { let _ = c.send(()); } }
+                        log.push("reconnect".into());
+                    }
                     if peer.is_none() {
                         match connect_gossip(ctx, s, &cfg, genesis, &mut rng, blocks.clone()).await {
                             Ok(p) => peer = Some(p),
@@ -2154,6 +2166,7 @@ impl C10 {
                     }
                     let p = peer.as_mut().unwrap();
                     let k = st["k"].as_str().unwrap_or("");
+                    if std::env::var("C10_TRACE").is_ok() { eprintln!("step {st}"); }
                     let outcome: String = match k {
                         "bss" => {
                             *p.serve.lock().unwrap() = match st["serve"].as_str().unwrap_or("hang") {
@@ -2225,6 +2238,7 @@ impl C10 {
                     if ANY_PANIC.lock().unwrap().is_some() || node_done.lock().unwrap().is_some() { break; }
                 }
                 track.store(track_stop(), Ordering::Relaxed);
+                if std::env::var("C10_TRACE").is_ok() { eprintln!("steps done {log:?}"); }
                 // the adversarial peer goes away; a fresh honest peer checks that the node still works
                 if let Some(mut p) = peer.take() { if let Some(c) = p.close.take() { let _ = c.send(()); } }
                 tokio::time::sleep(std::time::Duration::from_millis(5)).await;
@@ -2256,10 +2270,12 @@ impl C10 {
                 Ok(mut v) => { v["_peak"] = json!(peak); Ok(v) }
                 Err(e) => Err(format!("{e:#}")),
             }
-        });
+        })).unwrap_or_else(|site| Err(format!("panic: {site}")));
+        TRACK_ON.store(false, Ordering::Relaxed);
         let panic = ANY_PANIC.lock().unwrap().take();
         if let Some(site) = panic {
-            out.oracle_fail(&site, "a well-formed RPC message crashed a task of the node", op.clone());
+            // the scope re-panics into `exec`'s catch otherwise; report here with the message sequence as the input
+            out.oracle_fail(&format!("node: {site}"), "a well-formed RPC message crashed a task of the node", op.clone());
             return json!({"panic": site, "_res": format!("{res:?}")});
         }
         match res {
@@ -2298,6 +2314,7 @@ impl Prop for C10 {
         gen_consensus(&mut rng, n / 8, &mut ops);
         gen_votes(&mut rng, n / 8, &mut ops);
         gen_store_and_node(&mut rng, n / 100, &mut ops);
+        if let Ok(only) = std::env::var("C10_ONLY") { ops.retain(|o| o["op"] == only.as_str()); }
         // certificates: add the model's view of the realised value (map in the real BTreeMap order)
         let nval = WEIGHTS.len();
         for op in ops.iter_mut() {
